@@ -15,6 +15,13 @@
 (*                   the property-level summary (bucket rule, partition,   *)
 (*                   min/max, Merge is a homomorphism, Diff its inverse).  *)
 (*                                                                         *)
+(* LONG boundary lists: a boundary list may also contain "filler"          *)
+(* integers outside 0..MaxRank - negative ones lie below every value,      *)
+(* ones beyond MaxRank above every value.  The rule InBucket and all       *)
+(* invariants are untouched (values stay ranks); the list just gets 17,    *)
+(* 32, 100+ entries with the value-equal boundaries at its first, middle   *)
+(* or last positions, and the expected counts vector gets as long.         *)
+(*                                                                         *)
 (* Two scenarios (constant Mode):                                          *)
 (*  "direct": NSlots aggregation objects; New / Aggregate / Merge / Diff   *)
 (*  "pipe"  : one instrument, NKeys attribute sets, readers with delta or  *)
@@ -45,7 +52,9 @@
 EXTENDS Integers, Sequences, FiniteSets, TLC, Json
 
 CONSTANTS MaxRank,     \* ranks are 0..MaxRank
-          BoundSets,   \* set of boundary lists explored (each a set of ranks)
+          BoundSets,   \* set of boundary lists explored (each a set of ranks, written as rank + BOff
+                       \* because a cfg file cannot hold negative numbers)
+          BOff,        \* offset of the boundary codes in BoundSets (0: plain ranks)
           Tables,      \* set of concretisation table names explored
           MMChoices,   \* subset of BOOLEAN: record_min_max settings explored
           Mode,        \* "direct" | "pipe"
@@ -154,8 +163,8 @@ ViewP(p) == LET on == p.mmv /\ p.count > 0 IN
 \* o: [bag (truth), sd (what the sum covers under diff-sum-not-computed), mmv]
 ExpOf(o) == PointOf(o.bag, o.bag, o.mmv, {})
 AltOf(o, S) == PointOf(o.bag, IF "diff-sum-not-computed" \in S THEN o.sd ELSE o.bag, o.mmv, S)
-AltsOf(o) == {[devs |-> S, n |-> Cardinality(S), pt |-> AltOf(o, S)] :
-                 S \in {T \in (SUBSET Dev) \ {{}} : AltOf(o, T) # ExpOf(o)}}
+AltsOf(o) == LET e == ExpOf(o) IN
+             {a \in {[devs |-> S, n |-> Cardinality(S), pt |-> AltOf(o, S)] : S \in (SUBSET Dev) \ {{}}} : a.pt # e}
 
 (* ---- state -------------------------------------------------------------- *)
 Slots == 1..NSlots
@@ -170,7 +179,7 @@ TChar(d) == IF d = 1 THEN "d" ELSE "c"
 RC(c) == IF c < 10 THEN <<TChar(c)>> ELSE <<TChar(c \div 10), TChar(c % 10)>>
 
 Init ==
-  /\ tab \in Tables /\ B \in BoundSets /\ bs = AscSeq(B) /\ mm \in MMChoices
+  /\ tab \in Tables /\ B \in {{c - BOff : c \in S} : S \in BoundSets} /\ bs = AscSeq(B) /\ mm \in MMChoices
   /\ bk = [v \in Ranks |-> CHOOSE i \in 1..(Len(bs) + 1) : InBucket(v, i)]
   /\ temp \in (IF Mode = "pipe" THEN {RC(c) : c \in ReaderCfgs} ELSE {<<>>})
   /\ obj = [s \in Slots |-> NoObj]
@@ -274,7 +283,7 @@ ForAllPoints(P(_, _, _)) ==
         /\ P(rd[r][k].cum, rd[r][k].seen, mm)
         /\ P(MergeP(rd[r][k].cum, rd[r][k].acc), BUnion(rd[r][k].seen, rd[r][k].since), mm)
 
-TypeOK == /\ B \subseteq Ranks /\ tab \in Tables /\ mm \in BOOLEAN
+TypeOK == /\ B \subseteq Int /\ tab \in Tables /\ mm \in BOOLEAN
           /\ Len(bs) = Cardinality(B) /\ \A i \in 1..Len(bs) : bs[i] \in B /\ (i > 1 => bs[i - 1] < bs[i])
           /\ ForAllPoints(LAMBDA p, bag, mmv : Len(p.counts) = NB + 1)
 BucketsPartition == ForAllPoints(LAMBDA p, bag, mmv : SumSeq(p.counts) = p.count /\ p.count = BSize(bag))
@@ -335,6 +344,12 @@ WitDiffRounded == Wit(LastOp = "diff" /\ {"diff-sum-not-computed"} \in LastAlts
 \* witnesses for rare shapes
 WitMergeOfDiff == Wit(LastOp = "merge" /\ \E s \in Slots : obj[s].live /\ ~obj[s].mmv /\ mm /\ BSize(obj[s].bag) > 1)
 WitBoundaryEqual == Wit(LastOp = "agg" /\ hist[Len(hist)].v \in B /\ NB >= 2)
+\* a value equal to a boundary of a long list (>= 17 boundaries), summarised / merged / collected
+WitLongEqualAgg == Wit(LastOp = "agg" /\ hist[Len(hist)].v \in B /\ NB >= 17)
+WitLongEqualMerge == Wit(LastOp = "merge" /\ NB >= 17 /\ hist[Len(hist)].a # hist[Len(hist)].b
+                         /\ \E v \in B \cap Ranks : obj[hist[Len(hist)].d].bag[v] >= 2)
+WitLongEqualCollect == Wit(LastOp = "collect" /\ NB >= 17 /\ nops >= 2
+                           /\ \E r \in Readers, k \in Keys, v \in B \cap Ranks : temp[r] = "c" /\ rd[r][k].seen[v] >= 2)
 WitCumSecondInterval == Wit(LastOp = "collect" /\ \E r \in Readers, k \in Keys :
                                temp[r] = "c" /\ BSize(rd[r][k].seen) >= 3 /\ rd[r][k].cum.count >= 3
                                /\ \E q \in Readers : q # r /\ BSize(rd[q][k].since) > 0)
